@@ -97,6 +97,19 @@ static int op_tdiv_qr(int argc, tok_t *a, out_t *o) {
   mpz_clear(q); mpz_clear(r); mpz_clear(n); mpz_clear(d); return 0;
 }
 
+/* mpz_sqrtrem (root, rem, op): mode ra rv ma mv ua uv; mode 0 all distinct, 1 root is op, 2 rem is op; output: root then rem */
+static int op_sqrtrem(int argc, tok_t *a, out_t *o) {
+  NEED(argc == 7); long m = mode_of(&a[0]); NEED(m >= 0 && m <= 2);
+  mpz_t q, r, u; int e;
+  NEED(mk(q, &a[1], &a[2]) == 0);
+  if (mk(r, &a[3], &a[4])) { mpz_clear(q); return -1; }
+  if (mk(u, &a[5], &a[6])) { mpz_clear(q); mpz_clear(r); return -1; }
+  mpz_ptr Q = m == 1 ? u : q, R = m == 2 ? u : r;
+  e = GUARD(mpz_sqrtrem(Q, R, u));
+  if (e) out_err(o, "sqrtneg"); else { outw(o, Q); outw(o, R); }
+  mpz_clear(q); mpz_clear(r); mpz_clear(u); return 0;
+}
+
 /* mpz_sqrt (w, u): mode wa wv ua uv; mode 0 or 1; a negative operand raises SQRT_OF_NEGATIVE */
 static int op_sqrt(int argc, tok_t *a, out_t *o) {
   NEED(argc == 5); long m = mode_of(&a[0]); NEED(m == 0 || m == 1);
@@ -122,6 +135,6 @@ static int op_mpf_urandomb(int argc, tok_t *a, out_t *o) {
 
 const opdef_t ops_allocsafe4[] = {
   {"as4_addmul_ui", op_addmul_ui}, {"as4_submul_ui", op_submul_ui},
-  {"as4_addmul", op_addmul}, {"as4_submul", op_submul}, {"as4_mul", op_mul}, {"as4_mpf_urandomb", op_mpf_urandomb}, {"as4_sqrt", op_sqrt}, {"as4_tdiv_qr", op_tdiv_qr}, {"as4_tdiv_q", op_tdiv_q}, {"as4_tdiv_r", op_tdiv_r},
+  {"as4_addmul", op_addmul}, {"as4_submul", op_submul}, {"as4_mul", op_mul}, {"as4_mpf_urandomb", op_mpf_urandomb}, {"as4_sqrt", op_sqrt}, {"as4_sqrtrem", op_sqrtrem}, {"as4_tdiv_qr", op_tdiv_qr}, {"as4_tdiv_q", op_tdiv_q}, {"as4_tdiv_r", op_tdiv_r},
   {0, 0}
 };
